@@ -93,6 +93,7 @@ func main() {
 			}
 			rw := &rewriter{fset: p.Fset, info: p.TypesInfo, file: f, yield: !*noyield, name: name}
 			rw.run()
+			rw.dropUnusedSchedImport()
 			var buf bytes.Buffer
 			if err := format.Node(&buf, p.Fset, f); err != nil {
 				die("print %s: %v", name, err)
@@ -266,6 +267,12 @@ func (rw *rewriter) run() {
 		}
 		return true
 	})
+}
+
+func (rw *rewriter) dropUnusedSchedImport() {
+	if rw.nYield+rw.nChan+rw.nSel+rw.nGo == 0 {
+		astutil.DeleteNamedImport(rw.fset, rw.file, schedName, "verif/mc/sched")
+	}
 }
 
 func isSelSwitch(sw *ast.SwitchStmt) bool {
